@@ -456,4 +456,60 @@ std::string body_C15(Ctx& c, CaseIn& in) {
   return "";
 }
 
+// ------------------------------------------------------------------------------------------------
+// One raw input for the libFuzzer targets (and for replaying their artifacts through the regular
+// harness). C02: byte 0 selects reader kind and limit, the rest is the message. C04: the whole
+// input is the message.
+std::string fuzz_one(Ctx& c, const TypeOps& t, bool is02, const uint8_t* data, size_t size, bool* accepted, bool* noncanonical) {
+  // per-type constants, computed once
+  struct PerType { std::map<int64_t, int64_t> handles; Value good_value; Bytes good_bytes; };
+  static std::map<const TypeOps*, PerType> cache;
+  auto it = cache.find(&t);
+  if (it == cache.end()) {
+    PerType pt;
+    for (int64_t i = 0; i < 64; i++) pt.handles[i] = 100 + i;
+    auto vs = variants(*t.schema);
+    pt.good_value = vs[vs.size() > 2 ? 2 : 0];
+    { auto o = t.make(); o->assign(pt.good_value); pt.good_value = o->get(); }
+    for (auto& h : default_handle_table(*t.schema, pt.good_value)) pt.handles[h.first] = h.second;
+    pt.good_bytes = ref_encode(*t.schema, pt.good_value).bytes;
+    it = cache.emplace(&t, std::move(pt)).first;
+  }
+  const std::map<int64_t, int64_t>& handles = it->second.handles;
+  const Value& good_value = it->second.good_value;
+  tracker().reset();
+  if (!is02) {
+    bool rj = false;
+    std::string m = compare_with_reference(c, t, Bytes(data, data + size), handles, false, "fuzz input", noncanonical, &rj);
+    *accepted = !rj;
+    return m;
+  }
+  if (t.unbounded || size == 0) return "";
+  const Bytes& good_bytes = it->second.good_bytes;
+  static const int kinds_all[] = {R_Buf, R_Ped, R_BBuf, R_BPed, R_Log, R_BLog};
+  std::vector<int> kinds; for (int k : kinds_all) if (t.supports_reader(k)) kinds.push_back(k);
+  int rk = kinds[data[0] % kinds.size()];
+  const uint8_t* msg = data + 1; size_t n = size - 1;
+  size_t lim = n;
+  if (rk_bounded(rk)) { uint8_t sel = data[0] / kinds.size(); lim = sel % 3 == 0 ? n : sel % 3 == 1 ? n / 2 : SIZE_MAX - 1; }
+  const uint64_t budget = 4096 + (64 + 4 * (uint64_t)t.elem_max) * (uint64_t)n;
+  auto obj = t.make();
+  c.rep.current_detail = fmt("fuzz Read of %s via %s limit %zu input %s", t.name.c_str(), rk_name(rk), lim, hex(Bytes(msg, msg + n)).substr(0, 160).c_str());
+  ReaderBox r; r.open(rk, msg, n, lim); r.log.handles = handles;
+  AllocMeter::arm();
+  int s = obj->read(r);
+  uint64_t used = AllocMeter::disarm();
+  c.rep.evaluations++;
+  if (used > budget) return fmt("over-allocation: Read via %s allocated %llu bytes for %zu input bytes (budget %llu)", rk_name(rk), (unsigned long long)used, n, (unsigned long long)budget);
+  *accepted = s == 0;
+  Value seen = obj->get(); (void)seen;
+  ReaderBox r2; r2.open(t.has_handle ? R_Log : R_Ped, good_bytes); r2.log.handles = handles;
+  int s2 = obj->read(r2);
+  if (s2 != 0) return fmt("reuse-failed: a valid read after the hostile read returned %s", err_name(s2));
+  if (!value_equal(*t.schema, obj->get(), good_value)) return fmt("reuse-value: a valid read after the hostile read produced %s", to_text(*t.schema, obj->get()).c_str());
+  obj.reset();
+  if (tracker().errors) return "lifetime: " + tracker().first_error;
+  return "";
+}
+
 }  // namespace vk
